@@ -67,7 +67,7 @@ def _run_one(m, keep=False):
     try:
         subprocess.check_call(["rsync", "-a", "--exclude", "target", "--exclude", ".git", REPO + "/", root + "/"])
         if m.get("patch"):
-            subprocess.check_call(["git", "apply", "--directory", root, m["patch"]], cwd="/")
+            subprocess.check_call(["git", "apply", "--whitespace=nowarn", m["patch"]], cwd=root)
         else:
             apply_edit(root, m)
         results = []
